@@ -196,7 +196,7 @@ class _Scn(object):
                 p['vtype'] = rnd.choice(('int8', 'uint8', 'int16', 'int32', 'uint16'))  # degree vectors in a narrow integer container
             elif x < 0.36:
                 p['vtype'] = 'column'  # the docstring's "Nx1" taken literally
-        budget = 30000 if g != 'maketoeplitzCIJ' else 11000
+        budget = 30000 if g != 'maketoeplitzCIJ' else 3000  # an infeasible (n, k, s) would cost 10 001 rejected draws: stop on the draw budget instead
         return {'scn': self.ID, 'routine': g, 'params': p, 'seed': sub, 'policy': rewire.pick_policy(rnd), 'budget': budget, 'trace': None}
 
     def execute(self, case, mode):
